@@ -29,6 +29,52 @@ def code_fingerprint(f):
     return fp(f.__code__)
 
 
+def count_ops_text(text):
+    """operator evaluations written in the text (a negative numeric literal is a literal)"""
+    import ast
+    n = 0
+    for e in ast.walk(ast.parse(text)):
+        if isinstance(e, (ast.BinOp, ast.Compare, ast.BoolOp)):
+            n += 1
+        elif isinstance(e, ast.UnaryOp) and not (isinstance(e.op, ast.USub) and isinstance(e.operand, ast.Constant)):
+            n += 1
+    return n
+
+
+def count_ops_graph(g):
+    """operator applications that the graph's output depends on (each is one value), nested graphs included"""
+    import einx._src.tracer as tracer
+    py = tracer.signature.python
+    seen, ops, stack = set(), 0, [g]
+    while stack:
+        x = stack.pop()
+        if isinstance(x, (str, int, float, bool, np.integer, np.floating)) or x is None or id(x) in seen:
+            continue
+        seen.add(id(x))
+        if isinstance(x, tracer.Graph):
+            stack.append(x.output)
+        elif isinstance(x, tracer.Tracer):
+            o = x.origin
+            if o is not None and id(o) not in seen:
+                seen.add(id(o))
+                ops += isinstance(o, py.OperatorApplication)
+                stack.extend(o.inputs)
+        elif isinstance(x, (list, tuple)):
+            stack.extend(x)
+        elif isinstance(x, dict):
+            stack.extend(list(x.keys()) + list(x.values()))
+        elif isinstance(x, slice):
+            stack.extend([x.start, x.stop, x.step])
+    return ops
+
+
+def _count_ops(item, text, g):
+    try:
+        item["ops_text"], item["ops_graph"] = count_ops_text(text), count_ops_graph(g)
+    except BaseException as e:  # noqa: BLE001
+        item["ops_count_error"] = type(e).__name__ + ": " + str(e)[:200]
+
+
 def _work(c):
     out = []
     for b in implrun.BACKENDS:
@@ -38,6 +84,7 @@ def _work(c):
         for rec in recs:
             item = {"backend": b, "text": rec["text"], "n_records": len(recs)}
             g = rec["graph"]
+            _count_ops(item, rec["text"], g)
             try:
                 item["graph_wire"] = irser.ser_graph(g)
             except irser.Unsupported as e:
@@ -155,6 +202,19 @@ def synthetic_graph(rng):
                 pool.append(py.call(py.getattr(np_, rng.choice(["cumsum", "negative", "abs"])), [a]))     # a later reader of the captured value
             v = py.call(py.getattr(np_, "apply_along_axis"), [fn, 0, b])
             desc.append("nested_def")
+        elif r < 0.925:
+            # a dict argument whose values are traced values that reach the call only through the dict
+            w = py.call(py.getattr(np_, rng.choice(["negative", "abs", "square"])), [b])
+            if rng.random() < 0.5:
+                d = py.call(py.builtins.dict, [{"w": w, "b": py.operator("-", a, b) if rng.random() < 0.5 else a}])
+                v = py.operator("+", py.getitem(d, "w"), py.getitem(d, "b"))
+                desc.append("dict_arg")
+            else:
+                row = py.Value(None)
+                d = py.call(py.builtins.dict, [{"s": row, "w": w}])
+                fn = tracer.Graph([row], py.operator("*", py.getitem(d, "s"), py.getitem(d, "w")))
+                v = py.call(py.getattr(np_, "apply_along_axis"), [fn, 0, a])
+                desc.append("dict_arg_nested_def")
         elif r < 0.95:
             v = py.call(py.getattr(np_, "where"), [py.operator("<", a, b), a, b])
             desc.append("compare")
@@ -178,6 +238,7 @@ def _work_syn(item):
     except BaseException as e:  # noqa: BLE001
         return [dict(out, text="", compile_error=type(e).__name__ + ": " + str(e)[:300])]
     out["text"] = text
+    _count_ops(out, text, g)
     try:
         out["graph_wire"] = irser.ser_graph(g)
     except irser.Unsupported as e:
@@ -272,6 +333,17 @@ def run(ctx):
                        {"call": c.record(), "code": it["text"], "detail": it.get("exec_detail", ex), "inputs": [np.asarray(a).tolist() for a in c.arrays]})
         elif it.get("same_code_object") is False:
             ctx.report({"kind": "text_is_not_the_executed_code", "family": c.family, "backend": it["backend"]}, {"call": c.record(), "code": it["text"]})
+    # every value is computed once: the text holds exactly one operator evaluation per operator node of the graph
+    for c, it in items:
+        if "ops_count_error" in it:
+            ctx.report({"kind": "operator_count_failed", "family": c.family, "backend": it["backend"]}, {"call": c.record(), "code": it["text"], "detail": it["ops_count_error"]})
+        elif it.get("ops_text") != it.get("ops_graph"):
+            ctx.report({"kind": "operator_value_computed_more_than_once" if it["ops_text"] > it["ops_graph"] else "operator_value_not_computed",
+                        "family": c.family, "backend": it["backend"]},
+                       {"call": c.record(), "code": it["text"], "operators_in_text": it["ops_text"], "operator_nodes_in_graph": it["ops_graph"]})
+        else:
+            stats["operator_multiplicity_checked"] = stats.get("operator_multiplicity_checked", 0) + 1
+            stats["operator_nodes"] = stats.get("operator_nodes", 0) + it["ops_graph"]
     for c, it in items[:3]:
         ctx.sample({"call": c.record(), "backend": it["backend"], "code": it["text"]})
     ctx.coverage.update({
